@@ -325,7 +325,8 @@ class Interp:
         B = fr.B
         if op == 'q':
             kind, rel = st[1], st[2]
-            cmp = st[3] if len(st) > 3 else 'METADATA'
+            cmp = resolve_step(st[3], self.build_no) if len(st) > 3 \
+                else 'METADATA'
             spelling = st[4] if len(st) > 4 else None
             path = sb.p(rel)
             try:
@@ -348,6 +349,7 @@ class Interp:
             _, rel, fid, args, kwargs, cmp, catch = st[:7]
             args = unjson(resolve_step(args, self.build_no))
             kwargs = unjson(resolve_step(kwargs, self.build_no))
+            cmp = resolve_step(cmp, self.build_no)
             spelling = st[7] if len(st) > 7 else None
             path = sb.p(rel)
             func = self.make_func(fid)
